@@ -122,13 +122,15 @@ fn wsimple_family(name: &'static str, thorough_only: bool, f: WSimpleFam, level:
 fn families(a: &Args) -> Vec<Family> {
     let t = a.thorough();
     vec![
-        wlist_family("wlists3", false, WListFam { n: 3, m: if t { 4 } else { 3 }, directed: false, loops: true, k: 2 }, 1),
+        wlist_family("wlists3", false, WListFam { n: 3, m: if t { 5 } else { 3 }, directed: false, loops: true, k: 2 }, 1),
         wlist_family("wlists4", false, WListFam { n: 4, m: 3, directed: false, loops: true, k: if t { 3 } else { 2 } }, 1),
         wsimple_family("wsimple4", false, WSimpleFam { n: 4, directed: false, loops: false, k: 3, max_edges: None }, 1),
         wsimple_family("wsimple4-loops", false, WSimpleFam { n: 4, directed: false, loops: true, k: 2, max_edges: None }, 0),
-        wlist_family("wlists4-m4", true, WListFam { n: 4, m: 4, directed: false, loops: true, k: 2 }, 0),
+        wlist_family("wlists4-m4", true, WListFam { n: 4, m: 4, directed: false, loops: true, k: 3 }, 0),
         wsimple_family("wsimple5", true, WSimpleFam { n: 5, directed: false, loops: false, k: 2, max_edges: None }, 1),
-        wsimple_family("wsimple5-3weights-le7edges", true, WSimpleFam { n: 5, directed: false, loops: false, k: 3, max_edges: Some(7) }, 0),
+        wsimple_family("wsimple5-3weights", true, WSimpleFam { n: 5, directed: false, loops: false, k: 3, max_edges: None }, 0),
+        wsimple_family("wsimple6-unweighted", true, WSimpleFam { n: 6, directed: false, loops: false, k: 1, max_edges: None }, 1),
+        wsimple_family("wsimple6-2weights-le7edges", true, WSimpleFam { n: 6, directed: false, loops: false, k: 2, max_edges: Some(7) }, 0),
     ]
 }
 
@@ -137,7 +139,7 @@ fn main() {
         Spec {
             prop: "C12",
             rule: "E2: every weighted multigraph of each family (self-loops, parallel edges, repeated weights; u32 and f64 weights) stored undirected (Graph x3, StableGraph with vacancies, MatrixGraph compact/with removed id, GraphMap, Csr) and directed (Graph, StableGraph with vacancies, MatrixGraph, GraphMap, Csr, adj::List); non-trivial = more edges than a spanning forest needs".into(),
-            explanation: "the element stream must list all nodes in node_references order with their weights, then edges that are edges of g with that weight (multiset inclusion), acyclic, |V|-c of them, with total weight equal to the brute-force minimum over all edge subsets of that size that are forests; Prim: spanning tree of the first node's component of minimum weight".into(),
+            explanation: "the element stream must list all nodes in node_references order with their weights, then edges that are edges of g with that weight (multiset inclusion), acyclic, |V|-c of them, with total weight equal to the brute-force minimum over all edge subsets of that size that are forests; Prim: spanning tree of the first node's component of minimum weight; Graph::from_elements(min_spanning_tree(g)) has exactly the stream's nodes (in order, with weights) and edges".into(),
             assumptions: vec!["graph sizes and weight alphabets bounded as stated per family".into(), "oracles in harness/src/algs/opt.rs are trusted".into()],
             min_outcomes: 5,
         },
